@@ -158,8 +158,10 @@ int kalign_read_input(char* infile, struct msa** msa, int quiet)
         if(*msa != NULL){
                 RUN(merge_msa(msa, m));
                 kalign_free_msa(m);
+                m = NULL;
         }else{
                 *msa = m;
+                m = NULL;
         }
         /* LOG_MSG("%d " , (*msa)->aligned); */
         RUN(check_for_sequences(*msa));
